@@ -115,19 +115,19 @@ Proof.
 Qed.
 
 (* ------------------------------------------------------------------ the compress loop *)
-Lemma compress_loop : forall (c : X) (W lo hi : Q) rest comp C cur,
+Lemma compress_loop : forall (c dmn dmx : X) (W lo hi : Q) rest comp C cur,
   Forall (fin_c lo hi) (cur :: comp) -> Forall (fin_c lo hi) rest ->
   StronglySorted mle (rev (cur :: comp)) ->
   Forall (mle cur) rest -> StronglySorted mle rest ->
   (comp = [] -> C == 0) ->
   exists comp' C' cur',
-    fold_left (compress_step xarith c (Fin W)) rest (comp, Fin C, cur) = (comp', Fin C', cur') /\
+    fold_left (compress_step xarith c (Fin W) dmn dmx) rest (comp, Fin C, cur) = (comp', Fin C', cur') /\
     Forall (fin_c lo hi) (cur' :: comp') /\
     StronglySorted mle (rev (cur' :: comp')) /\
     sumw (cur' :: comp') == sumw (cur :: comp) + sumw rest /\
     (comp <> [] \/ rest <> [] -> comp' <> []).
 Proof.
-  intros c W lo hi rest. induction rest as [|cen rest IH]; intros comp C cur Hcc Hrest Hs Hle Hsr HC.
+  intros c dmn dmx W lo hi rest. induction rest as [|cen rest IH]; intros comp C cur Hcc Hrest Hs Hle Hsr HC.
   - exists comp, C, cur. cbn [fold_left]. repeat split; try assumption.
     + change (sumw []) with 0. lra.
     + intros [H|H]; [exact H | contradiction].
@@ -151,7 +151,7 @@ Proof.
       assert (Enew : a_div xarith (a_fma xarith (Fin cm) (Fin cw) (a_mul xarith (Fin m) (Fin w)))
                        (Fin (cw + w)) = Fin ((cm * cw + m * w) / (cw + w))).
       { cbn [a_div a_fma a_mul xarith xfma xlift2 xdiv]. rewrite Z. reflexivity. }
-      rewrite Enew.
+      rewrite Enew. cbn [a_is_finite xarith xfinite].
       pose proof (wavg_between cm m cw w Hmm Hcw Hw) as Havg.
       set (nm := (cm * cw + m * w) / (cw + w)) in *.
       destruct (IH comp C (Fin nm, Fin (cw + w))) as (comp' & C' & cur' & E & F & S & SW & NEc).
@@ -192,13 +192,13 @@ Proof.
 Qed.
 
 (* ------------------------------------------------------------------ compress_cents *)
-Theorem compress_cents_spec : forall (c : X) (W lo hi : Q) cents,
+Theorem compress_cents_spec : forall (c dmn dmx : X) (W lo hi : Q) cents,
   Forall (fin_c lo hi) cents -> cents <> [] ->
-  let out := compress_cents xarith c (Fin W) cents in
+  let out := compress_cents xarith c (Fin W) dmn dmx cents in
   Forall (fin_c lo hi) out /\ StronglySorted mle out /\ sumw out == sumw cents /\ out <> [] /\
   (forall x, out = [x] -> exists y, cents = [y]).
 Proof.
-  intros c W lo hi cents Hf NE. unfold compress_cents.
+  intros c dmn dmx W lo hi cents Hf NE. unfold compress_cents.
   pose proof (sort_c_perm cents) as P.
   pose proof (sort_c_sorted lo hi cents Hf) as S.
   pose proof (Forall_perm _ _ _ (Permutation_sym P) Hf) as Hfs.
@@ -206,7 +206,7 @@ Proof.
   - exfalso. apply NE. apply Permutation_nil. exact P.
   - inversion Hfs as [|? ? Hfirst Hrest]; subst.
     inversion S as [|? ? Srest Sfirst]; subst.
-    destruct (compress_loop c W lo hi rest [] 0 first) as (comp' & C' & cur' & E & F & SS & SW & NEc).
+    destruct (compress_loop c dmn dmx W lo hi rest [] 0 first) as (comp' & C' & cur' & E & F & SS & SW & NEc).
     + constructor; [exact Hfirst | constructor].
     + exact Hrest.
     + cbn. constructor; constructor.
